@@ -290,4 +290,69 @@ Section Proofs.
       rewrite (lookup_den 0 r k Wr0), (lookup_den 0 new k Wn), (lookup_den 0 old k Wo), Dr. unfold Spec.
       rewrite (clip_id 0 0 old Wo) by lia. reflexivity.
   Qed.
+  (** * consequences: what is displayed, repeated and successive highlights, override_attrs *)
+  Definition over (hi lo : option A) : option A := match hi with Some a => Some a | None => lo end.
+
+  (** what the character iterator shows for the first n characters of the merged line *)
+  Lemma merge_displayed old new n : WF old -> WF new ->
+    exists r, merge_fragments old new = Some r /\
+      iter_attrs r n = map (fun k => over (lookup new k) (lookup old k)) (map N.of_nat (seq 0 n)).
+  Proof.
+    intros Wo Wn. destruct (merge_spec old new Wo Wn) as (r & Er & _ & Dr). exists r. split; [exact Er|].
+    rewrite iter_attrs_lookup. apply map_ext. intros k. apply Dr.
+  Qed.
+
+  (** two successive layers: the later wins, then the earlier, then the colours of the text *)
+  Lemma merge_two_layers old h1 h2 : WF old -> WF h1 -> WF h2 ->
+    exists r1 r2, merge_fragments old h1 = Some r1 /\ merge_fragments r1 h2 = Some r2 /\ WF r2 /\
+      forall k, lookup r2 k = over (lookup h2 k) (over (lookup h1 k) (lookup old k)).
+  Proof.
+    intros Wo W1 W2. destruct (merge_spec old h1 Wo W1) as (r1 & E1 & Wr1 & D1).
+    destruct (merge_spec r1 h2 Wr1 W2) as (r2 & E2 & Wr2 & D2).
+    exists r1, r2. split; [exact E1|]. split; [exact E2|]. split; [exact Wr2|].
+    intros k. rewrite D2, D1. reflexivity.
+  Qed.
+
+  (** laying the same highlights a second time changes no character *)
+  Lemma merge_idempotent old new : WF old -> WF new ->
+    exists r1 r2, merge_fragments old new = Some r1 /\ merge_fragments r1 new = Some r2 /\
+      forall k, lookup r2 k = lookup r1 k.
+  Proof.
+    intros Wo Wn. destruct (merge_two_layers old new new Wo Wn Wn) as (r1 & r2 & E1 & E2 & _ & D).
+    destruct (merge_spec old new Wo Wn) as (r1' & E1' & _ & D1).
+    rewrite E1 in E1'. injection E1' as <-.
+    exists r1, r2. split; [exact E1|]. split; [exact E2|].
+    intros k. rewrite D, D1. unfold over. destruct (lookup new k); reflexivity.
+  Qed.
+
+  (** no highlight ranges: nothing changes, character by character; no colours: the highlights alone *)
+  Lemma merge_nil_new old : WF old ->
+    exists r, merge_fragments old [] = Some r /\ forall k, lookup r k = lookup old k.
+  Proof.
+    intros Wo. destruct (merge_spec old [] Wo I) as (r & Er & _ & Dr). exists r. split; [exact Er|].
+    intros k. rewrite Dr. reflexivity.
+  Qed.
+  Lemma merge_nil_old new : WF new ->
+    exists r, merge_fragments [] new = Some r /\ forall k, lookup r k = lookup new k.
+  Proof.
+    intros Wn. destruct (merge_spec [] new I Wn) as (r & Er & _ & Dr). exists r. split; [exact Er|].
+    intros k. rewrite Dr. cbn. destruct (lookup new k); reflexivity.
+  Qed.
+
+  (** AnsiString::override_attrs on the optional fragment list of the string *)
+  Definition WFo (c : option (list frag)) : Prop := match c with None => True | Some l => WF l end.
+  Definition lookupo (c : option (list frag)) (k : N) : option A :=
+    match c with None => None | Some l => lookup l k end.
+  Lemma override_spec cur attrs : WFo cur -> WF attrs ->
+    exists r, override_attrs cur attrs = Some r /\ WFo r /\
+      forall k, lookupo r k = over (lookup attrs k) (lookupo cur k).
+  Proof.
+    intros Wc Wa. unfold override_attrs. destruct attrs as [|f attrs'].
+    - exists cur. split; [reflexivity|]. split; [exact Wc|]. intros k. reflexivity.
+    - destruct cur as [c|].
+      + destruct (merge_spec c (f :: attrs') Wc Wa) as (r & Er & Wr & Dr).
+        exists (Some r). rewrite Er. split; [reflexivity|]. split; [exact Wr|]. exact Dr.
+      + exists (Some (f :: attrs')). split; [reflexivity|]. split; [exact Wa|].
+        intros k. cbn [lookupo]. unfold over. destruct (lookup (f :: attrs') k); reflexivity.
+  Qed.
 End Proofs.
